@@ -13,6 +13,7 @@
    run by tools/c10.py, which injects one I/O error at EVERY storage operation (reads and length queries
    included, during open too) of every generated history: the call must answer an error — never success, a panic
    or a hang — and reopening must show the before-or-after state with everything earlier intact. *)
+From HC Require SrcOrder OrderTie.
 From HC Require Import Refine ClearRefine Unified1 CrashClear1 CrashClear2 CrashClear4.
 From HC Require Import Base NMap Codec Crypto FlatTree Storage Bitfield Oplog Merkle Core CoreFacts Fault.
 
@@ -121,6 +122,17 @@ Theorem C10_failed_clear_recovers :
               c_keypair c2 = c_keypair c).
 Proof. exact clear_fault_recovers. Qed.
 
+(* Tie to the source, regenerated on every run (tools/srcorder.py): in append_batch, clear, verify_and_apply_proof, make_read_only and the
+   checkpoint EVERY storage call (Storage::flush_info(s), the checkpoint itself) is followed by `.await?`, i.e. its Result is
+   propagated — the syntactic half of what the model cannot express (the other half: fault injection on the crate). *)
+Theorem C10_source_propagates_every_storage_result :
+  OrderTie.tied_order SrcOrder.src_unpropagated_append_batch 0%N /\
+  OrderTie.tied_order SrcOrder.src_unpropagated_clear 0%N /\
+  OrderTie.tied_order SrcOrder.src_unpropagated_verify_and_apply_proof 0%N /\
+  OrderTie.tied_order SrcOrder.src_unpropagated_make_read_only 0%N /\
+  OrderTie.tied_order SrcOrder.src_unpropagated_flush_bitfield_and_tree_and_oplog 0%N.
+Proof. exact OrderTie.source_propagates_every_storage_result. Qed.
+
 Print Assumptions C10_failed_flush_is_a_cut.
 Print Assumptions C10_fault_states_are_crash_cuts.
 Print Assumptions C10_journal_prefixes_apply.
@@ -130,3 +142,4 @@ Print Assumptions C10_failed_append_recovers.
 Print Assumptions C10_failed_clear_recovers.
 Print Assumptions CrashClear4.toy_fault_in_clear.
 Print Assumptions CrashClear4.fault_then_continue_loses_acknowledged_appends.
+Print Assumptions C10_source_propagates_every_storage_result.
